@@ -28,10 +28,12 @@
 
    Coordinates are Z pairs (the harness uses integer-valued doubles of small magnitude, for
    which the shoelace products and the ray-casting quotient comparison are exact).
-   Way.Polygon() (polygon.go; property C18) is the input flag [w_area].
+   Way.Polygon() (polygon.go) is property C18's model [C18.Model.way_polygon] applied to the rule
+   table re-read from /repo ([way_area]); C18 proves it total, so the default is never taken.
    Identifiers are small non-negative integers (FeatureID packing is injective on [0,2^40)). *)
 From Coq Require Import ZArith String List Bool.
 From VerifGen Require Import GenTags.
+From Verif Require C18.Model.
 Import ListNotations.
 Open Scope string_scope.
 Open Scope Z_scope.
@@ -55,7 +57,7 @@ Definition meta0 : meta :=
 
 Record node := { n_id : Z; n_lon : Z; n_lat : Z; n_tags : tags; n_meta : meta }.
 Record wnode := { wn_id : Z; wn_lon : Z; wn_lat : Z }.
-Record way := { w_id : Z; w_nodes : list wnode; w_tags : tags; w_meta : meta; w_area : bool }.
+Record way := { w_id : Z; w_nodes : list wnode; w_tags : tags; w_meta : meta }.
 Record member := { m_type : etype; m_ref : Z; m_role : string; m_orient : Z; m_nodes : list wnode }.
 Record relation := { r_id : Z; r_members : list member; r_tags : tags; r_meta : meta }.
 Record osm := { nodes : list node; ways : list way; relations : list relation }.
@@ -222,8 +224,16 @@ Definition node_emitted (o : opts) (d : osm) (n : node) : bool :=
   negb (way_member d (n_id n) && is_nil (rel_summaries o d (TNode, n_id n))
         && negb (has_interesting (n_tags n) None)).
 
+(* w.Polygon(): C18's model of polygon.go on the way's node ids and tags, with the rule table
+   regenerated from /repo (C18.Model.RT).  Properties/C18 proves the result is always [Val _]. *)
+Definition way_area (w : way) : bool :=
+  match C18.Model.way_polygon C18.Model.RT (map wn_id (w_nodes w)) (w_tags w) with
+  | C18.Model.Val b => b
+  | _ => false
+  end.
+
 Definition way_geom (w : way) (ls : list pt) : geom :=
-  if w_area w then GPoly [reorient_outer (to_ring ls)] else GLine ls.
+  if way_area w then GPoly [reorient_outer (to_ring ls)] else GLine ls.
 
 Definition way_feature (o : opts) (d : osm) (w : way) : option feature :=
   let '(ls, t) := way_line d (w_nodes w) in
@@ -286,7 +296,7 @@ Definition add_to_mp (mp : list poly) (ring : list pt) (incl : bool) : list poly
   end.
 
 Definition pseudo_way (id : Z) (ns : list wnode) : way :=
-  {| w_id := id; w_nodes := ns; w_tags := []; w_meta := meta0; w_area := false |}.
+  {| w_id := id; w_nodes := ns; w_tags := []; w_meta := meta0 |}.
 
 (* per-member contribution of the buildPolygon loop (build_polygon.go 22-88) *)
 Record pstep := { ps_cnt : Z; ps_taint : bool; ps_skips : list Z;
